@@ -4,8 +4,10 @@ Bounded-exhaustive differential exploration, no sampling.  Every payload is the 
 property's "template's domain") or is a one-byte substitution / truncation / one-byte extension of such a payload.
 
 The generator does NOT go through the template under test: header, prim parameters and the simple sections are packed with
-``struct`` from a layout table written down from the protocol (REF_HEADER / REF_PRIM_LAYOUT / REF_FLAGS); only TextureEntry,
-ExtraParams and the particle blocks are encoded by the module-level sub-templates that both decoders share.  The template's
+``struct`` from a layout table written down from the protocol (REF_HEADER / REF_PRIM_LAYOUT / REF_FLAGS); the TextureEntry
+is hand-packed as well (field framing, canonical face-set bytes, inverted colour, quantised offsets / rotation / glow, material
+bit fields: ref_te), so the shared TE writer is judged against canonical bytes; only ExtraParams and the particle blocks are
+encoded by the module-level sub-templates that both decoders share.  The template's
 own ``serialize`` of the same dict must give the same bytes (template-encode), so "payloads the template emits" and "payloads
 the generator emits" are the same set on a conforming tree, and a template whose member types drift (U8 -> S8) is judged on
 the wire values it can no longer express instead of silently narrowing the generated domain.
@@ -174,12 +176,12 @@ def te_exceptions() -> tmpls.TextureEntryCollection:
     te.Color = {None: b"\xff\xff\xff\xff", (2,): b"\x10\x20\x30\x80"}
     te.ScalesS = {None: 1.0, (0, 1): 2.5}
     te.ScalesT = {None: 1.0, (5,): -0.5}
-    te.OffsetsS = {None: 0.0, (1,): 0.5}
+    te.OffsetsS = {None: 0.0, (1,): 0.75}
     te.OffsetsT = {None: 0.25, (2,): -1.0}
     te.Rotation = {None: 0.0, (4,): 1.5}
     te.BasicMaterials = {None: tmpls.BasicMaterials(), (0,): tmpls.BasicMaterials(Bump=3, FullBright=True, Shiny=tmpls.ShineLevel.HIGH)}
     te.MediaFlags = {None: tmpls.MediaFlags(), (1,): tmpls.MediaFlags(WebPage=True, TexGen=tmpls.TexGen.PLANAR)}
-    te.Glow = {None: 0.0, (3,): 0.5}
+    te.Glow = {None: 0.0, (3,): 0.2}
     te.Materials = {None: UUID.ZERO, (0,): U(8)}
     return te
 
@@ -188,6 +190,18 @@ def te_high_faces() -> tmpls.TextureEntryCollection:
     te = tmpls.TextureEntryCollection()
     te.Textures = {None: U(5), (7,): U(6), (0, 8, 20): U(7), (44,): U(9)}  # multi-byte face bitfields
     te.Glow = {None: 1.0, (13, 14): 0.25}
+    return te
+
+
+def te_top_face(top: int) -> tmpls.TextureEntryCollection:
+    """Exception face sets whose highest face is ``top``: alone, together with face 0, and a dense run below it."""
+    te = tmpls.TextureEntryCollection()
+    te.Textures = {None: U(5), (top,): U(6)}
+    if top:
+        te.Textures[(0, top)] = U(7)
+    te.Color = {None: b"\xff\xff\xff\xff", tuple(range(max(0, top - 8), top + 1)): b"\x10\x20\x30\x80"}
+    te.Glow = {None: 0.0, (top,): 1.0}
+    te.Materials = {None: UUID.ZERO, (top,): U(8)}
     return te
 
 
@@ -306,6 +320,67 @@ def _shared(member: str, spec: Any, val: Any) -> bytes:
     return bytes(w.buffer)
 
 
+# TextureEntry wire form (LLPrimitive::packTEMessage), hand-packed: per field the default value, then (face set, value) pairs;
+# a NUL in front of every field but the first; the trailing Materials field is optional.  Face sets: 7 faces per byte, most
+# significant group first, bit 7 = "another byte follows", NO leading empty group (canonical form).
+TE_FIELD_ORDER = ("Textures", "Color", "ScalesS", "ScalesT", "OffsetsS", "OffsetsT", "Rotation", "BasicMaterials", "MediaFlags", "Glow",
+                  "Materials")
+
+
+def ref_face_set(faces) -> bytes:
+    packed = 0
+    for f in faces:
+        packed |= 1 << int(f)
+    groups = []
+    while packed:
+        groups.append(packed & 0x7F)
+        packed >>= 7
+    groups.reverse()
+    return bytes((g | 0x80) if i < len(groups) - 1 else g for i, g in enumerate(groups))
+
+
+def _quant(x: float, scale: float) -> int:
+    v = x * scale
+    if abs(abs(v - int(v)) - 0.5) < 1e-6:
+        raise HarnessError(f"generator value {x!r} sits on a rounding boundary of the quantiser; pick another")
+    return int(round(v))
+
+
+def ref_te_value(field: str, v: Any) -> bytes:
+    if field in ("Textures", "Materials"):
+        return v.bytes
+    if field == "Color":
+        return bytes(~b & 0xFF for b in v)
+    if field in ("ScalesS", "ScalesT"):
+        return struct.pack("<f", v)
+    if field in ("OffsetsS", "OffsetsT"):
+        return struct.pack("<h", _quant(v, 32767.0))
+    if field == "Rotation":
+        return struct.pack("<h", _quant(v, 32768.0 / (2 * 3.141592653589793)))
+    if field == "Glow":
+        return struct.pack("<B", _quant(v, 255.0))
+    if field == "BasicMaterials":
+        return struct.pack("<B", (int(v.Bump) & 0x1F) | (0x20 if v.FullBright else 0) | ((int(v.Shiny) & 0x3) << 6))
+    if field == "MediaFlags":
+        return struct.pack("<B", (1 if v.WebPage else 0) | (int(v.TexGen) & 0x06) | (int(getattr(v, "_Unused", 0)) & 0xF8))
+    raise HarnessError(f"unknown TE field {field}")
+
+
+def ref_te(te: Any) -> bytes:
+    out = bytearray()
+    for i, field in enumerate(TE_FIELD_ORDER):
+        vals = getattr(te, field)
+        if field == "Materials" and not vals:
+            continue
+        if i:
+            out += b"\x00"
+        out += ref_te_value(field, vals[None])
+        for faces, v in vals.items():
+            if faces is not None:
+                out += ref_face_set(faces) + ref_te_value(field, v)
+    return bytes(out)
+
+
 def wire_state(pcode: Any, state: Any) -> int:
     st = int(state)
     if int(pcode) == 9:  # PRIMITIVE: attachment point, nibbles swapped on the wire
@@ -315,7 +390,7 @@ def wire_state(pcode: Any, state: Any) -> int:
 
 def encode(d: dict, raw: Optional[Dict[str, bytes]] = None) -> Tuple[bytes, List[Tuple[int, str]]]:
     """Reference wire encoder: (payload, [(start offset, top-level member)]).  Fixed-layout parts and the simple sections are
-    packed by hand; only TextureEntry, ExtraParams and the particle blocks go through the shared sub-templates."""
+    packed by hand, the TextureEntry too (ref_te); only ExtraParams and the particle blocks go through shared sub-templates."""
     buf = bytearray()
     tops: List[Tuple[int, str]] = []
 
@@ -367,7 +442,7 @@ def encode(d: dict, raw: Optional[Dict[str, bytes]] = None) -> Tuple[bytes, List
         put("NameValue", "\n".join(lines).encode("utf8") + b"\x00")
     for name, fmt in REF_PRIM_LAYOUT:
         put(name, struct.pack("<" + fmt, d[name]))
-    te = b"" if d["TextureEntry"] is None else _shared("TextureEntry", tmpls.TE_SERIALIZER, d["TextureEntry"])
+    te = b"" if d["TextureEntry"] is None else ref_te(d["TextureEntry"])
     put("TextureEntry", struct.pack("<I", len(te)) + te)
     if flags & F["TEXTURE_ANIM"]:
         ta = d["TextureAnim"]
@@ -441,6 +516,8 @@ def factor_table() -> List[Tuple[str, str, Optional[str], dict]]:
     add("TextureEntry", "exceptions", None, TextureEntry=te_exceptions())
     add("TextureEntry", "high-faces", None, TextureEntry=te_high_faces())
     add("TextureEntry", "no-materials", None, TextureEntry=te_no_materials())
+    for top in list(range(32)) + [34, 35, 41, 42, 44]:  # every 7-bit group boundary of the face-set encoding up to MAX_TES - 1
+        add("TextureEntry", f"top-face-{top}", None, TextureEntry=te_top_face(top))
     TA, TM = tmpls.TextureAnim, tmpls.TextureAnimMode
     add("TextureAnim", "all-modes", "TEXTURE_ANIM", TextureAnim=TA(Mode=TM(0x7F), Face=127, SizeX=255, SizeY=0, Start=-1.0, Length=0.0, Rate=1e9))
     add("TextureAnim", "zero", "TEXTURE_ANIM", TextureAnim=TA(Mode=TM(0), Face=0, SizeX=0, SizeY=0, Start=0.0, Length=0.0, Rate=0.0))
@@ -889,7 +966,7 @@ def degenerate_variants(member: str, kind: str, base: bytes) -> List[Tuple[str, 
     if kind == "u32":
         out = _u32_variants(base[4:])
         if member == "TextureEntry":  # a second, richer blob
-            out += [("exceptions:" + n, b) for n, b in _u32_variants(_shared("TextureEntry", tmpls.TE_SERIALIZER, te_exceptions()))]
+            out += [("exceptions:" + n, b) for n, b in _u32_variants(ref_te(te_exceptions()))]
         return out
     if kind == "cstr":
         body = base[:-1]
@@ -1615,7 +1692,8 @@ def run(run: Run):
         "subfield serializers) that a private probe confirms to raise after partial output; up to 3 consecutive failures before a check; "
         "one process per payload, the witness is the executed op prefix",
         "the wire layout of the fixed part (header, prim parameters, section bits, simple sections) is the harness's own table, taken "
-        "from the protocol; TextureEntry / ExtraParams / particle sections are encoded by the sub-templates both decoders share "
+        "from the protocol, the TextureEntry included (canonical face sets, quantisers restated; generator values avoid rounding "
+        "boundaries); ExtraParams / particle sections are encoded by the sub-templates both decoders share "
         "(a defect common to both decoders inside those sub-templates is visible only through the reencode clause)",
         "trusted: struct, lazy_object_proxy, copy.deepcopy, the harness's comparison function and wire layout table",
     ]
